@@ -383,6 +383,9 @@ func ExerciseReader(tag string, mr metadata.Reader, regs []uint32, rec *Rec, pas
 				for _, lo := range readPlan(attr.Size) {
 					if _, err := ra.ReadAt(make([]byte, lo[0]), lo[1]); err != nil {
 						last = err
+						if os.Getenv("VERIF_C04_DEBUG") != "" {
+							fmt.Fprintf(os.Stderr, "DEBUG %s id=%d read(%d@%d): %v\n", tag+sfx, id, lo[0], lo[1], err)
+						}
 					}
 				}
 			}
